@@ -98,6 +98,12 @@ THOROUGH_BUDGET_S = 1500
 
 MAX_SIZE = 1200
 COVERS = [[1, 1], [1, -1], [-1, 1], [-1, -1]]
+# cover codes over four reference symbols (rows of a Hadamard matrix)
+COVERS4 = [[1, 1, 1, 1], [1, -1, 1, -1], [1, 1, -1, -1], [1, -1, -1, 1]]
+
+
+def _cover(idx, nc):
+    return COVERS[idx] if nc == 2 else COVERS4[idx]
 
 
 # ----------------------------------------------------------------------------
@@ -452,9 +458,16 @@ def _keep_st(W, D, dshifts):
     gap = min([min(d, D - d) for d in dshifts] + [D])
     hi = min(gap, 2) * W - 1
     base = st.one_of(st.just(W - 1), st.integers(0, W - 1))
+    N = W * D
+    every = st.sampled_from([N - 1, N - 1, N, N + 3]) if not dshifts \
+        else None       # "keep every tap": legal when nobody else transmits
     if hi > W - 1:
-        return st.one_of(base, base, st.integers(W, hi), st.just(hi))
-    return base
+        opts = [base, base, st.integers(W, hi), st.just(hi)]
+    else:
+        opts = [base, base, base]
+    if every is not None:
+        opts.append(every)
+    return st.one_of(*opts)
 
 
 @st.composite
@@ -473,7 +486,7 @@ def _est_cases(draw, tier):
         as_array=(not normalize) and draw(st.booleans()),
         mult=draw(st.sampled_from([1, 2, None])),
         nr=draw(st.sampled_from([0, 0, 1, 2, 3, 4])),
-        K=K, chan=_chan(draw, K + 1),
+        K=K, chan=_chan(draw, min(K + 1, N)),
         others=[dict(dshift=d, **_chan(draw, W)) for d in dshifts])
 
 
@@ -494,7 +507,9 @@ def _occ_cases(draw, tier):
         cover=draw(st.integers(0, 3)), normalize=draw(st.booleans()),
         nr=draw(st.sampled_from([0, 0, 1, 2, 3, 4])),
         extra_dimension=draw(st.booleans()),
-        K=K, chan=_chan(draw, K + 1), others=others)
+        # number of reference symbols the cover code spans (LTE: 2)
+        cover_len=draw(st.sampled_from([2, 2, 2, 4])),
+        K=K, chan=_chan(draw, min(K + 1, N)), others=others)
 
 
 def _taps(ch, nr):
@@ -520,8 +535,11 @@ def _taps(ch, nr):
     return h * (10.0 ** ch["scale_exp"])
 
 
-def _other_cover(user_cover, idx):
+def _other_cover(user_cover, idx, nc=2):
     """cover code of a same-shift user: orthogonal to the user's"""
+    if nc == 4:
+        sg = 1 if idx % 2 == 0 else -1
+        return [sg * x for x in COVERS4[(user_cover + 1 + idx % 3) % 4]]
     a, b = COVERS[user_cover]
     s = 1 if idx % 2 == 0 else -1
     return [s * a, -s * b]
@@ -695,7 +713,8 @@ def _check_occ(case, ctx):
                 n_interf=len(case["others"]), same_shift_occ=bool(same),
                 want=_largest_prime_le(N))
     _est_labels(ctx, "occ", case, W)
-    ctx.label("occ:cover=%r" % (COVERS[case["cover"]],),
+    nc = int(case.get("cover_len", 2))
+    ctx.label("occ:cover=%r" % (_cover(case["cover"], nc),),
               "occ:extra_dimension=%r" % case["extra_dimension"])
     if same:
         ctx.label("occ:same_shift_orthogonal_cover")
@@ -703,9 +722,9 @@ def _check_occ(case, ctx):
     with _tagged(tags):
         root_seq = RootSequence(root_index=root, size=N)
         useq = _user_seq("dmrs", root_seq, case["n_cs"], case["normalize"],
-                         COVERS[case["cover"]])
-        r0 = np.asarray(useq.seq_array())          # (2, N)
-    if r0.shape != (2, N):
+                         _cover(case["cover"], nc))
+        r0 = np.asarray(useq.seq_array())          # (nc, N)
+    if r0.shape != (nc, N):
         raise Violation("sequence_size", "cover-code sequence shape %r" %
                         (r0.shape,), tags)
     h0 = _taps(case["chan"], nrr)
@@ -716,8 +735,8 @@ def _check_occ(case, ctx):
     r0_before = r0.copy()
     for i, o in enumerate(case["others"]):
         n_u = (case["n_cs"] + o["dshift"]) % D
-        cov = COVERS[o["cover"]] if o["dshift"] else \
-            _other_cover(case["cover"], o["cover"])
+        cov = _cover(o["cover"], nc) if o["dshift"] else \
+            _other_cover(case["cover"], o["cover"], nc)
         with _tagged(tags):
             ru = np.asarray(_user_seq("dmrs", root_seq, n_u,
                                       case["normalize"], cov).seq_array())
@@ -760,7 +779,7 @@ def _check_occ(case, ctx):
     ctx.close(name, float(np.linalg.norm(out - want)), 1e-10 * scale,
               "N=%d root=%d shift=%d cover=%r nr=%d K=%d L=%d extra_dim=%r "
               "others=%r (scale %.3e)" %
-              (N, root, case["n_cs"], COVERS[case["cover"]], nr, K,
+              (N, root, case["n_cs"], _cover(case["cover"], nc), nr, K,
                case["chan"]["L"], case["extra_dimension"],
                [(o["dshift"], o["cover"], o["L"]) for o in case["others"]],
                scale), tags)
